@@ -1,23 +1,29 @@
 #!/bin/bash
-# tools/seed_matrix.sh : apply every stored seeded change to /repo in turn, run the quick check of its property,
-# undo it. Writes /verif/seeded/MATRIX.md (which check reports which change). /repo must be clean.
+# tools/seed_matrix.sh : apply every stored seeded change in turn to a scratch worktree of /repo HEAD, run the
+# quick check of its property against that worktree, undo it. Writes /verif/seeded/MATRIX.md (which check
+# reports which change). /repo itself is never touched (VERIF_REPO, separate target dir).
 cd /verif || exit 2
-git -C /repo diff --quiet || { echo "/repo is dirty"; exit 2; }
+wt=/tmp/seed_wt
+export CARGO_NET_OFFLINE=true
+if [ ! -d $wt ]; then git -C /repo worktree add -q --detach $wt HEAD || exit 2; fi
+( cd $wt && git checkout -q --detach "$(git -C /repo rev-parse HEAD)" && git reset -q --hard && git clean -qfd ) || exit 2
+export VERIF_REPO=$wt CARGO_TARGET_DIR=/tmp/seed_target IASTMC_BIN=/tmp/seed_target/debug/iastmc
 out=/verif/seeded/MATRIX.md
+rm -rf /tmp/seed_evidence_backup; cp -r evidence /tmp/seed_evidence_backup
 echo "| seed | property | applies | check exit | rules reported |" > $out
 echo "|---|---|---|---|---|" >> $out
 for d in seeded/*/; do
   name=$(basename $d)
   prop=$(python3 -c "import json;print(json.load(open('$d/meta.json'))['property'])")
-  if git -C /repo apply --check /verif/$d/patch.diff 2>/dev/null; then
-    git -C /repo apply /verif/$d/patch.diff
+  if git -C $wt apply --check /verif/$d/patch.diff 2>/dev/null; then
+    git -C $wt apply /verif/$d/patch.diff
     res=$(./check $prop --tier quick 2>&1); rc=$?
     rules=$(echo "$res" | grep -E "^  rule=" | sed 's/^  rule=\([^ ]*\) sig=.*/\1/' | sort | uniq -c | sort -rn | head -3 | awk '{printf "%s x%s; ", $2, $1}')
-    git -C /repo checkout -- .
+    ( cd $wt && git reset -q --hard && git clean -qfd )
     echo "| $name | $prop | yes | $rc | $rules |" >> $out
   else
     echo "| $name | $prop | NO (conflicts with a later fix) | - | - |" >> $out
   fi
   tail -1 $out
 done
-rm -rf /verif/replays
+rm -rf /verif/replays /verif/evidence && mv /tmp/seed_evidence_backup /verif/evidence
